@@ -6,7 +6,8 @@
 (*                  arguments a (the projection of the concrete ones), the *)
 (*                  projected outcome o, extras x (index: the flat entries *)
 (*                  NumPy selects with the caller's expression (sin) and   *)
-(*                  with the normalised one (sout); <<-1>> = NumPy raised) *)
+(*                  with the normalised one (sout); <<-1>> = NumPy raised; *)
+(*                  axes: NumPy's normalize_axis_tuple (np))               *)
 (*   history event  [id, fn |-> "hist", a |-> [m, hist], o]  the observed  *)
 (*                  state of a real object after the history               *)
 (* Layer A (NormSem) / the documented step functions (NormMachine) are     *)
@@ -34,6 +35,10 @@ CaseClauses(e) ==
                  want == FlatSel(r.v.v, e.a.shape)
              IN  (IF e.x.sout # want THEN {<<"selects-other-entries", e.fn, cell>>} ELSE {})
                  \cup (IF e.x.sin # <<-1>> /\ e.x.sin # want THEN {<<"numpy-disagrees", e.fn, cell>>} ELSE {})
+      \* NumPy's own normalize_axis_tuple on the same arguments (<<-1>> = NumPy raised)
+      ELSE IF e.fn = "axes" /\ e.o.k = "ok" /\ al # ANY /\ e.x.np # <<-1>>
+        THEN (IF e.o.v.k = "tuple" /\ [i \in 1..Len(e.o.v.v) |-> e.o.v.v[i].v] = e.x.np THEN {}
+              ELSE {<<"numpy-disagrees", e.fn, cell>>})
       ELSE {}
 LastAct(h) == IF h = <<>> THEN "init" ELSE h[Len(h)].a
 HistClauses(e) ==
